@@ -69,8 +69,18 @@ def showRes : Res → String
   | .okPerm h g => s!"okPerm({toHex h},{g.map toHex})"
   | .okPick h k d g => s!"okPick({toHex h},{k},{d},{g.map toHex})"
 
-def verdict (t : Transition) : String :=
-  match step t.ctx t.pre t.cmd with
+def hintOf : Observed → List Bytes
+  | .ok bs => match parseReply bs with
+    | some (.arr xs) => xs.filterMap fun v => match v with
+      | .bulk s => some s
+      | _ => none
+    | some (.bulk s) => [s]
+    | _ => []
+  | _ => []
+
+def verdictWith (t : Transition) (order : Nat) : String :=
+  let ctx := { t.ctx with order := order, hint := hintOf t.obs }
+  match step ctx t.pre t.cmd with
   | none => "SKIP unmodelled-command"
   | some (s', out) =>
     match out with
@@ -158,9 +168,21 @@ def shapeOf (t : Transition) : String :=
     | some e =>
       let tag := match e.val with
         | .nil => "nil" | .str _ => "str" | .int _ => "int" | .flt _ => "flt"
-        | .list _ => "list" | .hash _ => "hash" | .set _ => "set" | .zset _ => "zset"
+        | .list _ => "list" | .hash _ => "hash" | .set _ _ => "set" | .zset _ _ => "zset"
       if e.expired t.ctx.now then "expired-" ++ tag else if e.exp.isSome then "ttl-" ++ tag else tag
   | _ => "nokey"
+
+/-- Go map iteration order is resolved by trying the permutations of up to four distinct operands -/
+def verdict (t : Transition) : String :=
+  let n := ((t.cmd.drop 1).eraseDups.length).min 4
+  let tries := [1, 1, 2, 6, 24].getD n 1
+  let first := verdictWith t 0
+  if !first.startsWith "DIFF" then first else
+  match (List.range tries).drop 1 |>.findSome? fun o =>
+      let v := verdictWith t o
+      if v.startsWith "DIFF" then none else some v with
+  | some v => v
+  | none => first
 
 partial def loop (h : IO.FS.Stream) (out : IO.FS.Stream) : IO Unit := do
   let line ← h.getLine
